@@ -349,13 +349,18 @@ func (c *Collection) itemSlice(readConfig *ReadRequest) []idItem {
 }
 
 func (c *Collection) genID() (string, error) {
-	return GenerateUniqueId(c.rng, func(candidate string) bool {
+	id, err := GenerateUniqueId(c.rng, func(candidate string) bool {
 		if c.idInterceptor != nil {
 			candidate = c.idInterceptor(candidate)
 		}
 		_, exists := c.byId[candidate]
 		return exists
 	})
+	if err == nil && c.idInterceptor != nil {
+		// store and report the id in the form Get/Update/Delete will look it up by
+		id = c.idInterceptor(id)
+	}
+	return id, err
 }
 
 type item struct {
